@@ -90,6 +90,19 @@ def guarded(site, fn, par, names, selfname):
             if isinstance(c, ast.Compare) and any(isinstance(o, (ast.In, ast.NotIn)) for o in c.ops) and mentions(c.left, polarity_names):
                 return True
         return False
+    # the node whose references the site pushes / descends into (`stack.extend(cell.refs)`: cell) and the names a work-list hands out
+    # (`cell = stack.pop()`, `cell, done = stack.pop()`): a first-visit test of THAT node before its references are queued bounds the
+    # pushes by the number of references of distinct cells - the same argument as the test of the child
+    names = set(names)
+    for x in ast.walk(site):
+        if isinstance(x, ast.Attribute) and x.attr == 'refs' and isinstance(x.value, ast.Name):
+            names.add(x.value.id)
+    for x in ast.walk(fn):
+        if isinstance(x, ast.Assign) and isinstance(x.value, ast.Call) and isinstance(x.value.func, ast.Attribute) and x.value.func.attr in ('pop', 'popleft'):
+            for t in x.targets:
+                for y in ([t] if isinstance(t, ast.Name) else list(t.elts[:1]) if isinstance(t, (ast.Tuple, ast.List)) else []):
+                    if isinstance(y, ast.Name):
+                        names.add(y.id)
     # (1) an enclosing `if x not in seen:` / preceding `if x in seen: continue` in the same loop body
     n = site
     while n in par:
